@@ -55,12 +55,26 @@ def gen_matrix(rng, n, hi):
 
 
 def make_X(case):
+    if case.get("traj"):
+        # an md.Trajectory whose frames are told apart by their time stamp; the metric is a user-supplied
+        # float64 callable (an arbitrary distance table), as for RMSD-like metrics on structures
+        import mdtraj as md
+        n = len(case["M"])
+        top = md.Topology()
+        top.add_atom("CA", md.element.carbon, top.add_residue("ALA", top.add_chain()))
+        return md.Trajectory(np.zeros((n, 1, 3), dtype=np.float32), top, time=np.arange(n, dtype=float))
     if case["metric"] == "matrix":
         return np.arange(len(case["M"]), dtype=float).reshape(-1, 1)
     return np.array(case["X"], dtype=case.get("dtype", "float64"))
 
 
 def make_metric(case):
+    if case.get("traj"):
+        M = np.array([[float(F(v)) for v in row] for row in case["M"]], dtype=float)
+
+        def dmt(X, y):
+            return M[np.asarray(X.time).astype(int), int(np.asarray(y.time)[0])]
+        return dmt
     if case["metric"] == "matrix":
         M = np.array(case["M"], dtype=float)
 
@@ -102,13 +116,18 @@ class RecordingRandomState(np.random.RandomState):
 
 
 def xhash(X):
+    if hasattr(X, "xyz"):
+        return hashlib.sha256(np.ascontiguousarray(X.xyz).tobytes() + np.ascontiguousarray(X.time).tobytes()).hexdigest()
     return hashlib.sha256(np.ascontiguousarray(X).tobytes()).hexdigest()
 
 
 def canon(result, X):
     ci = [int(i) for i in result.center_indices]
-    cen_ok = len(result.centers) == len(ci) and all(
-        np.array_equal(np.asarray(c), np.asarray(X[i])) for c, i in zip(result.centers, ci))
+    def same(c, i):
+        if hasattr(c, "time"):
+            return len(c) == 1 and float(c.time[0]) == float(X[i].time[0]) and np.array_equal(c.xyz, X[i].xyz)
+        return np.array_equal(np.asarray(c), np.asarray(X[i]))
+    cen_ok = len(result.centers) == len(ci) and all(same(c, i) for c, i in zip(result.centers, ci))
     return {"ctrs": ci, "asg": [int(a) for a in result.assignments],
             "dst": [str(F(float(d))) for d in result.distances], "centers_are_frames": bool(cen_ok)}
 
@@ -354,6 +373,23 @@ def gen_kcenters(rng, nmax=12):
     return c
 
 
+def gen_traj_kcenters(rng):
+    """k-centers on an md.Trajectory with a user-supplied float64 metric whose values differ only far beyond
+    single precision (k * 2^-34 on top of small integers): any float32 storage of distances creates ties"""
+    n = rng.randint(3, 8)
+    M = [["0"] * n for _ in range(n)]
+    for i in range(n):
+        for j in range(i + 1, n):
+            v = F(rng.randint(1, 3)) + F(rng.randint(0, 7), 2 ** 34)
+            M[i][j] = M[j][i] = str(v)
+    c = {"metric": "matrix", "M": M, "tri": False, "traj": True, "n": n, "kind": "kcenters", "form": "func",
+         "ti": False, "init": None, "nclu": rng.randint(2, n), "cutoff": None}
+    if rng.random() < 0.4:
+        vals = sorted({F(v) for row in M for v in row if F(v) > 0})
+        c["nclu"], c["cutoff"] = None, float(rng.choice(vals))       # a cutoff equal to an attained distance
+    return c
+
+
 def gen_ti_boundary(rng):
     """1-D float data where some frame sits a hair above half the centre-to-new-centre distance:
     the comparison `distances > cc_dists/2` of the triangle shortcut is decided by ~1e-7..1e-9."""
@@ -524,4 +560,6 @@ def common_tags(c, out):
         t.append("more-clusters-than-frames")
     if c.get("explicit_none"):
         t.append("explicit-none-args")
+    if c.get("traj"):
+        t.append("md-trajectory-input")
     return t
